@@ -4,7 +4,7 @@ applying it to /repo and undoing it, but safe while other runs use /repo), run t
 (and any extra properties given as id:Cxx,Cyy), undo it, and record which checks caught it in seeded/RESULTS.json."""
 import json, os, subprocess, sys
 V = '/verif'
-res_p = os.path.join(V, 'seeded', 'RESULTS.json')
+res_p = os.environ.get('SEED_RESULTS') or os.path.join(V, 'seeded', 'RESULTS.json')
 results = json.load(open(res_p)) if os.path.exists(res_p) else {}
 tier = 'quick'
 args = sys.argv[1:]
@@ -21,11 +21,18 @@ for a in args:
     env = dict(os.environ, VERIF_REPO=wt, VERIF_EVIDENCE_DIR=os.path.join(V, '.work', 'evidence_seed'))
     try:
         for p in props:
+            proc = subprocess.Popen([os.path.join(V, 'check'), p, '--tier', tier], stdout=subprocess.PIPE, stderr=subprocess.PIPE, text=True, cwd=V, env=env, start_new_session=True)
             try:
-                r = subprocess.run([os.path.join(V, 'check'), p, '--tier', tier], capture_output=True, text=True, cwd=V, env=env, timeout=1800)
+                so, se = proc.communicate(timeout=2400)
+                r = subprocess.CompletedProcess(proc.args, proc.returncode, so, se)
             except subprocess.TimeoutExpired:
-                subprocess.run(['pkill', '-f', os.path.join(V, '.work')])
-                results.setdefault(sid, {})[p] = dict(rc=-1, caught=False, keys=['check timed out after 1800 s'], tier=tier)
+                import signal
+                try:
+                    os.killpg(proc.pid, signal.SIGKILL)      # only this check's own process group
+                except ProcessLookupError:
+                    pass
+                proc.communicate()
+                results.setdefault(sid, {})[p] = dict(rc=-1, caught=False, keys=['check timed out after 2400 s'], tier=tier)
                 print('%-8s %s TIMEOUT' % (sid, p))
                 continue
             keys = [l.strip()[4:] for l in r.stdout.splitlines() if l.startswith('  key=')]
